@@ -1051,7 +1051,9 @@ impl SubRule {
                     } else {
                         res_word.syllables.last_mut().unwrap().segments.push_back(*seg);
                         if let Some(m) = mods {
-                            let lc = res_word.apply_seg_mods(&self.alphas, m, pos, state.position)?;
+                            // `pos` is past the end of the word: the segment went to the end of the last syllable, its modifiers apply there
+                            let at = SegPos { syll_index: res_word.syllables.len() - 1, seg_index: res_word.syllables.last().unwrap().segments.len() - 1 };
+                            let lc = res_word.apply_seg_mods(&self.alphas, m, at, state.position)?;
                             if lc > 0 {
                                 pos.seg_index += lc.unsigned_abs() as usize;
                             }
@@ -1168,7 +1170,9 @@ impl SubRule {
                                 } else {
                                     res_word.syllables.last_mut().unwrap().segments.push_back(*seg);
                                     if let Some(m) = mods {
-                                        let lc = res_word.apply_seg_mods(&self.alphas, m, pos, state.position)?;
+                                        // `pos` is past the end of the word: the segment went to the end of the last syllable, its modifiers apply there
+                                        let at = SegPos { syll_index: res_word.syllables.len() - 1, seg_index: res_word.syllables.last().unwrap().segments.len() - 1 };
+                                        let lc = res_word.apply_seg_mods(&self.alphas, m, at, state.position)?;
                                         if lc > 0 {
                                             pos.seg_index += lc.unsigned_abs() as usize;
                                         }
@@ -1759,7 +1763,9 @@ impl SubRule {
                         } else {
                             res_word.syllables.last_mut().unwrap().segments.push_back(*seg);
                             if let Some(m) = mods {
-                                let lc = res_word.apply_seg_mods(&self.alphas, m, pos, z.position)?;
+                                // `pos` is past the end of the word: the segment went to the end of the last syllable, its modifiers apply there
+                                let at = SegPos { syll_index: res_word.syllables.len() - 1, seg_index: res_word.syllables.last().unwrap().segments.len() - 1 };
+                                let lc = res_word.apply_seg_mods(&self.alphas, m, at, z.position)?;
                                 if lc > 0 {
                                     pos.seg_index += lc.unsigned_abs() as usize;
                                 }
@@ -1869,6 +1875,7 @@ impl SubRule {
                         if let Some(var) = self.variables.borrow().get(&num.value.parse().unwrap()) {
                             match var {
                                 VarKind::Segment(seg) => {
+                                    let mut at = pos;
                                     if res_word.in_bounds(pos) {
                                         res_word.syllables[pos.syll_index].segments.insert(pos.seg_index, *seg);
                                     } else if let Some(syll) = res_word.syllables.get_mut(pos.syll_index) { 
@@ -1879,9 +1886,11 @@ impl SubRule {
                                         }
                                     } else {
                                         res_word.syllables.last_mut().unwrap().segments.push_back(*seg);
+                                        // `pos` is past the end of the word: the modifiers apply where the segment went
+                                        at = SegPos { syll_index: res_word.syllables.len() - 1, seg_index: res_word.syllables.last().unwrap().segments.len() - 1 };
                                     }
                                     if let Some(m) = mods {
-                                        let lc = res_word.apply_seg_mods(&self.alphas, m, pos, num.position)?;
+                                        let lc = res_word.apply_seg_mods(&self.alphas, m, at, num.position)?;
                 
                                         match lc.cmp(&0) {
                                             std::cmp::Ordering::Greater => pos.seg_index += lc.unsigned_abs() as usize,
